@@ -629,6 +629,15 @@ func c15Generate(ctx *Ctx, g *graph, label string) error {
 	doc["paths"].(J)["/zz-extra"] = J{"get": J{"operationId": "ZzExtra", "responses": J{"200": J{"description": "d",
 		"content": J{"application/json": J{"schema": J{"$ref": "#/components/schemas/ZzOnly"}}}}}}}
 	getJ(doc["components"].(J), "schemas")["ZzOnly"] = J{"type": "object", "properties": J{"v": J{"type": "string"}}}
+	if len(g.Nodes)%2 == 0 {
+		// the path item of the removed operation has a shared parameter list that refers to a component: the path item
+		// stays in the embedded specification (without operations), so what it refers to stays as well
+		doc["paths"].(J)["/zz-extra"].(J)["parameters"] = []interface{}{J{"$ref": "#/components/parameters/ZzShared"}}
+		getJ(doc["components"].(J), "parameters")["ZzShared"] = J{"name": "X-Zz", "in": "header", "schema": J{"type": "string"}}
+		kept = append(kept, "#/components/parameters/ZzShared")
+		sort.Strings(kept)
+		ctx.Res.Count("generate-level:path-item-without-operations-keeps-its-parameters")
+	}
 	spec, err := loadDoc(doc)
 	if err != nil {
 		// kin-openapi's loader gives up on some reference cycles depending on the order it meets them ("circular schema
